@@ -239,8 +239,9 @@ impl Scenario for C05 {
       &["executor, timer, clock (sim)", "inner observables are harness sources (sync loop / subject / interval.take)"],
     )
   }
-  fn generate(&self, rng: &mut Rng, _tier: Tier) -> Value {
-    let k = rng.range(1, 4);
+  fn generate(&self, rng: &mut Rng, tier: Tier) -> Value {
+    let deep = deepen(rng, tier);
+    let k = rng.range(1, if deep == 2 { 6 } else { 4 });
     let op = match rng.below(7) {
       0 | 1 | 2 => FOp::MergeAll(if rng.chance(1, 5) { usize::MAX } else { rng.range(1, k + 1) }),
       3 => FOp::ConcatAll,
